@@ -749,6 +749,7 @@ def oracle_cutoffs(src, ops, tail):
     rank_of_handle = {}
     nh = 0
     always, never = {}, set()        # node rank -> changed_at frozen at; never set
+    fncut = set()                    # top-level nodes that currently have a function cutoff
     plain, nondefault = {}, set()    # top-level nodes made by an ordinary combinator; those ever given a cutoff
     computed = {}                    # node rank -> value it had at the end of the stabilise that last recomputed it
     var_rank, written = [], set()    # variable index -> rank of its watch node; variables written since the last stabilise
@@ -777,6 +778,9 @@ def oracle_cutoffs(src, ops, tail):
             r = rank_of_handle.get(int(t[1]))
             always.pop(r, None)
             never.discard(r)
+            fncut.discard(r)
+            if t[2].startswith("fn:") or t[2].startswith("boxed:"):
+                fncut.add(r)
             n = op.nodes.get(r)
             if n is not None:
                 if t[2] == "always" and n["val"] != "-":
@@ -852,6 +856,8 @@ def oracle_cutoffs(src, ops, tail):
             for i, e in enumerate(evs):
                 if ev_kind(e) == "cut" and i > 0 and ev_kind(evs[i - 1]) == "inv":
                     n = ev_node(evs[i - 1])
+                    if n not in fncut:
+                        continue     # the cutoff consulted here is that of a map_ref over n (MapRef::child_changed), not n's
                     res = evs[i - 1].rsplit("-> ", 1)[1]
                     old, new = e.split()[1], e.split()[2]
                     before = prev.nodes.get(n)
